@@ -5,6 +5,8 @@ import json, os, shutil, subprocess, sys, concurrent.futures as cf
 IDS = ["C01","C02","C03","C04","C05","C06","C07","C08","C09","C10","C11","C12","C13","C15","C16","C17","C19","C20"]
 BASE = os.environ.get("MUTBASE", "/tmp/mut")
 TAG = os.environ.get("MUTTAG", "")
+# keys that do not start with a property id (file-targeted rounds): {"F1-A": "C06", ...}
+PROPMAP = json.loads(os.environ.get("PROPMAP", "{}"))
 
 
 def one(key):
@@ -33,7 +35,9 @@ def main():
             print(key, "missing"); continue
         ok = res.get("applies") == 1 and "100% tests passed" in res.get("suite", "") and res.get("demo_exit_with_patch") not in ("0", "n/a") and res.get("demo_exit_without_patch") == "0"
         print(key, "CONFIRMED" if ok else "NOT CONFIRMED", res)
-        dst = "/verif/seeded/" + key + TAG
+        pid, var = key.split("-")
+        prop = PROPMAP.get(key, pid)
+        dst = "/verif/seeded/" + (key if prop == pid else "%s-%s%s" % (prop, pid, var)) + TAG
         if os.path.exists(dst):
             shutil.rmtree(dst)
         if not ok:
@@ -43,7 +47,7 @@ def main():
         shutil.copytree(src, dst, ignore=shutil.ignore_patterns("patch.diff", "patch.ported.diff", "__pycache__", "out.*.txt"))
         shutil.copy("/tmp/confirm/%s%s.patch" % (key, TAG), os.path.join(dst, "patch.diff"))
         readme = open(os.path.join(src, "README.md")).read() if os.path.exists(os.path.join(src, "README.md")) else ""
-        meta = {"property": pid, "variant": var, "origin": "independent sub-agent given only the property text and a scratch worktree" + (" (second round: told which ideas were already taken)" if TAG else ""),
+        meta = {"property": prop, "variant": var if prop == pid else pid + var, "origin": "independent sub-agent given only the property text and a scratch worktree" + (" (later round: told which ideas were already taken, or restricted to a set of source files)" if TAG else ""),
                 "ported_to_fixed_tree": res["ported"],
                 "needs_to_manifest": "see README.md (section on what is needed for it to manifest)",
                 "confirmed_at_repo_commit": res["head"],
